@@ -965,6 +965,10 @@ func OpCoq(o OpObs, memoTerm string) string {
 	case "msg":
 		return fmt.Sprintf("OMsg %s %s %s", cq.Str(o.Op.Msg.Signer), o.Op.Msg.Coq(), boolsCoq(verdicts))
 	case "deposit":
+		if !o.MsgOK {
+			// the deposit did not happen (the denomination's supply is at the 256-bit limit)
+			return fmt.Sprintf("ODeposit %s %s 0", cq.Str(Hex(o.Op.To)), cq.Str(o.Op.Denom))
+		}
 		return fmt.Sprintf("ODeposit %s %s %s", cq.Str(Hex(o.Op.To)), cq.Str(o.Op.Denom), cq.Z(o.Op.Amount))
 	case "query":
 		return "OQuery " + o.Op.Q.Coq()
